@@ -11,7 +11,7 @@ CONSTANTS
   VoidNames = {"input"}
   AttrChoices <- AttrChoicesFull
   WsChoices = {"", "v"}
-  Words = {"w1"}
+  Words = {"w1", "w3"}
   Exprs = {"E1"}
   Conds = {"C1", "C2"}
   Lists = {"L1"}
